@@ -283,9 +283,13 @@ def check(cx):
             if not mentions(nick, NN):
                 continue
             u = ('idx', USERS, nick)
-            c1 = ast[0] == 'ite' and ast[2] == ('lit', '*') and ast[3] == ('lit', '') and \
-                equivalent(ast[1], Or(flag(field(u, 'modes', 'local_oper')), flag(field(u, 'modes', 'oper'))))[0]
-            c2 = away[0] == 'ite' and away[2] == ('lit', '-') and away[3] == ('lit', '+') and equivalent(away[1], is_some(field(u, 'away')))[0]
+            def choice(t, cond, yes, no):
+                # t is `yes` exactly when cond holds and `no` otherwise, however the choice is written (if/else, match, negated test)
+                cs = [(c_, l_) for c_, l_ in term_cases(t) if sat(And(e.pc, c_)) is not None]
+                return len(cs) >= 2 and all((l_ == yes and entails(And(e.pc, c_), cond)[0]) or (l_ == no and entails(And(e.pc, c_), Not(cond))[0])
+                                            for c_, l_ in cs)
+            c1 = choice(ast, Or(flag(field(u, 'modes', 'local_oper')), flag(field(u, 'modes', 'oper'))), ('lit', '*'), ('lit', ''))
+            c2 = choice(away, is_some(field(u, 'away')), ('lit', '-'), ('lit', '+'))
             c3 = entails(e.pc, has(USERS, nick))[0]
             okuh = c1 and c2 and c3 and e.data['args'][3] == field(u, 'name') and e.data['args'][4] == field(u, 'hostname')
     if not okuh:
